@@ -1046,4 +1046,147 @@ theorem addDecl_full {bt : List Builtin} (F : Facts) (v2 : Bool) (hng : NoGeneri
         · exact .inl (.inr hr)⟩) p3.inv
     exact modify_nosrc_dinv g4 (fun ob' hob' => by rw [hob3] at hob'; cases hob'; exact ⟨by simp, hsrc⟩) d3
 
+theorem addObj_full {bt : List Builtin} (F : Facts) (v2 : Bool) (hng : NoGenerics F) (hwf : WellFormed F v2) (fuel : Nat) (u : U)
+    (ob : GObj) (u' : U) (h : Full bt F v2 u) (hf : addObj bt F v2 fuel u ob = some u') : Full bt F v2 u' := by
+  unfold addObj at hf
+  cases hk : ob.kind with
+  | typeName =>
+    simp only [hk] at hf
+    cases hw : walk bt F v2 fuel u ob.ty none with
+    | none => simp [hw] at hf
+    | some p =>
+      simp only [hw, Option.map_some, Option.some.injEq] at hf
+      subst hf
+      exact ⟨(walk_inv bt F v2 fuel _ _ _ _ _ h.1 hw).inv, (walk_desc bt F v2 hng hwf fuel _ _ _ _ _ [] h.1 h.2 hw).1⟩
+  | func => simp only [hk] at hf; exact addDecl_full F v2 hng hwf fuel u _ _ _ _ u' h hf
+  | var => simp only [hk] at hf; exact addDecl_full F v2 hng hwf fuel u _ _ _ _ u' h hf
+  | const => simp only [hk] at hf; exact addDecl_full F v2 hng hwf fuel u _ _ _ _ u' h hf
+
+theorem addObjs_full {bt : List Builtin} (F : Facts) (v2 : Bool) (hng : NoGenerics F) (hwf : WellFormed F v2) (fuel : Nat) :
+    ∀ (obs : List GObj) (u u' : U), Full bt F v2 u → addObjs bt F v2 fuel u obs = some u' → Full bt F v2 u' := by
+  intro obs
+  induction obs with
+  | nil => intro u u' h hf; simp only [addObjs, Option.some.injEq] at hf; subst hf; exact h
+  | cons ob rest ih =>
+    intro u u' h hf
+    simp only [addObjs] at hf
+    cases ha : addObj bt F v2 fuel u ob with
+    | none => simp [ha] at hf
+    | some u1 =>
+      simp only [ha] at hf
+      exact ih u1 u' (addObj_full F v2 hng hwf fuel u ob u1 h ha) hf
+
+/-- records of packages and imports are no part of the object store -/
+theorem full_of_same {bt : List Builtin} {F : Facts} {v2 : Bool} {u u' : U} (ho : u'.objs = u.objs) (ht : u'.types = u.types)
+    (hb : u'.builtinObjs = u.builtinObjs) (hd : declObjs u' = declObjs u) (h : Full bt F v2 u) : Full bt F v2 u' := by
+  obtain ⟨hi, hg⟩ := inv_of_same ho ht hb hd h.1
+  exact ⟨hi, dinv_of_same ho hg h.2⟩
+
+theorem scanPkg_full {bt : List Builtin} (F : Facts) (v2 : Bool) (hng : NoGenerics F) (hwf : WellFormed F v2) (fuel : Nat) (u : U)
+    (p : GPkg) (u' : U) (h : Full bt F v2 u) (hf : scanPkg bt F v2 fuel u p = some u') : Full bt F v2 u' := by
+  unfold scanPkg at hf
+  obtain ⟨a, b, c, d⟩ := package_objs u p.path
+  have h1 := full_of_same (u' := (u.package p.path).setPkg p.path (fun r => { r with name := p.name })) a b c d h
+  cases ha : addObjs bt F v2 fuel ((u.package p.path).setPkg p.path (fun r => { r with name := p.name })) p.scope with
+  | none => simp [ha] at hf
+  | some u2 =>
+    simp only [ha, Option.some.injEq] at hf
+    subst hf
+    have h2 := addObjs_full F v2 hng hwf fuel _ _ _ h1 ha
+    obtain ⟨a', b', c', d'⟩ := addImports_same u2 p.path (p.imports.mergeSort Str.le)
+    exact full_of_same a' b' c' d' h2
+
+theorem full_empty (bt : List Builtin) (F : Facts) (v2 : Bool) : Full bt F v2 {} :=
+  ⟨inv_empty bt, ⟨fun o ob h => by simp at h, fun o ob g h => by simp at h⟩⟩
+
+theorem visitV2_full (w : World) (hng : NoGenerics w.facts) (hwf : WellFormed w.facts w.v2) :
+    ∀ (n : Nat) (st st' : LState) (path : Str), Full w.bt w.facts w.v2 st.u →
+    visitV2 w n st path = some st' → Full w.bt w.facts w.v2 st'.u := by
+  intro n
+  induction n with
+  | zero => intro st st' path _ h; simp [visitV2] at h
+  | succ n ih =>
+    intro st st' path hinv h
+    simp only [visitV2] at h
+    split at h
+    · cases h; exact hinv
+    · cases hf : w.find path with
+      | none => simp [hf] at h
+      | some p =>
+        simp only [hf] at h
+        obtain ⟨a, b, c, d⟩ := package_objs st.u path
+        have h1 := full_of_same a b c d hinv
+        split at h
+        · cases h; exact h1
+        · obtain ⟨a2, b2, c2, d2⟩ := package_objs (st.u.package path) p.path
+          have h2 := full_of_same (u' := ((st.u.package path).package p.path).setPkg p.path (fun r => { r with name := p.name })) a2 b2 c2 d2 h1
+          cases ha : addObjs w.bt w.facts w.v2 w.fuel (((st.u.package path).package p.path).setPkg p.path (fun r => { r with name := p.name })) p.scope with
+          | none => simp [ha] at h
+          | some u3 =>
+            simp only [ha] at h
+            have h3 := addObjs_full w.facts w.v2 hng hwf w.fuel _ _ _ h2 ha
+            generalize hst3 : ({ u := u3, requested := st.requested, processed := st.processed ++ [path] } : LState) = st3 at h
+            cases hfold : p.imports.foldl (fun acc i => acc.bind (fun s => visitV2 w n s i)) (some st3) with
+            | none => simp [hfold] at h
+            | some st4 =>
+              simp only [hfold, Option.some.injEq] at h
+              subst h
+              have h4 := foldl_bind_inv (fun s i => visitV2 w n s i) (fun s => Full w.bt w.facts w.v2 s.u)
+                (fun s i s' hs hv => ih s s' i hs hv) p.imports st3 st4 (by subst hst3; exact h3) hfold
+              obtain ⟨a5, b5, c5, d5⟩ := addImports_same st4.u p.path (p.imports.mergeSort Str.le)
+              exact full_of_same a5 b5 c5 d5 h4
+
+theorem addPkgsV2_full (w : World) (hng : NoGenerics w.facts) (hwf : WellFormed w.facts w.v2) (st st' : LState) (roots : List Str)
+    (hinv : Full w.bt w.facts w.v2 st.u) (h : addPkgsV2 w st roots = some st') : Full w.bt w.facts w.v2 st'.u := by
+  unfold addPkgsV2 at h
+  exact foldl_bind_inv (fun s p => visitV2 w (w.pkgs.length + 1) s p) (fun s => Full w.bt w.facts w.v2 s.u)
+    (fun s p s' hs hv => visitV2_full w hng hwf _ s s' p hs hv) _ st st' hinv h
+
+/-- **v2_universe_described**: after `LoadPackages` + `NewUniverse` from nothing the universe is closed, canonical and
+every filled object is described by its node -/
+theorem newUniverseV2_full (w : World) (hng : NoGenerics w.facts) (hwf : WellFormed w.facts w.v2) (req : List Str) (st : LState)
+    (h : newUniverseV2 w req = some st) : Full w.bt w.facts w.v2 st.u := by
+  unfold newUniverseV2 at h
+  exact addPkgsV2_full w hng hwf _ st _ (full_empty w.bt w.facts w.v2) h
+
+theorem loadToV2_full (w : World) (hng : NoGenerics w.facts) (hwf : WellFormed w.facts w.v2) (st st' : LState) (more : List Str)
+    (hinv : Full w.bt w.facts w.v2 st.u) (h : loadToV2 w st more = some st') : Full w.bt w.facts w.v2 st'.u := by
+  unfold loadToV2 at h
+  exact addPkgsV2_full w hng hwf { st with requested := more.foldl (fun acc r => if acc.contains r then acc else acc ++ [r]) st.requested } st' more hinv h
+
+theorem findTypesInV1_full (w : World) (hng : NoGenerics w.facts) (hwf : WellFormed w.facts w.v2) (st st' : LState) (path : Str)
+    (hinv : Full w.bt w.facts w.v2 st.u) (h : findTypesInV1 w st path = some st') : Full w.bt w.facts w.v2 st'.u := by
+  unfold findTypesInV1 at h
+  cases hf : w.find path with
+  | none => simp [hf] at h
+  | some p =>
+    simp only [hf] at h
+    split at h
+    · cases h; exact hinv
+    · cases hs : scanPkg w.bt w.facts w.v2 w.fuel st.u p with
+      | none => simp [hs] at h
+      | some u' =>
+        simp only [hs, Option.map_some, Option.some.injEq] at h
+        subst h
+        exact scanPkg_full w.facts w.v2 hng hwf w.fuel st.u p u' hinv hs
+
+/-- **v1_universe_described**: the same for `AddDir…` + `FindTypes` -/
+theorem findTypesV1_full (w : World) (hng : NoGenerics w.facts) (hwf : WellFormed w.facts w.v2) (req : List Str) (st : LState)
+    (h : findTypesV1 w req = some st) : Full w.bt w.facts w.v2 st.u := by
+  unfold findTypesV1 at h
+  exact foldl_bind_inv (fun s p => findTypesInV1 w s p) (fun s => Full w.bt w.facts w.v2 s.u)
+    (fun s p s' hs hv => findTypesInV1_full w hng hwf s s' p hs hv) _ _ st (full_empty w.bt w.facts w.v2) h
+
+theorem addDirToV1_full (w : World) (hng : NoGenerics w.facts) (hwf : WellFormed w.facts w.v2) (st st' : LState) (path : Str)
+    (hinv : Full w.bt w.facts w.v2 st.u) (h : addDirToV1 w st path = some st') : Full w.bt w.facts w.v2 st'.u := by
+  unfold addDirToV1 at h
+  exact findTypesInV1_full w hng hwf { st with requested := if st.requested.contains path then st.requested else st.requested ++ [path] } st' path hinv h
+
+/-- what `Full` gives a reader of the universe: any object with a source node is what that node says -/
+theorem described {bt : List Builtin} {F : Facts} {v2 : Bool} {u : U} (h : Full bt F v2 u) (o : Nat) (ob : Obj) (g : Nat)
+    (hob : u.objs[o]? = some ob) (hs : ob.src = some g) : Desc F v2 u ob g := by
+  rcases h.2.desc o ob g hob hs with hp | hd
+  · cases hp
+  · exact hd
+
 end Gengo.WalkDesc
